@@ -1,7 +1,7 @@
 From Coq Require Import List ZArith Lia Bool.
 Import ListNotations.
 Require Import Base Tree Driver Inl3e Render Props.
-Require QFullDefs QFull IFullDefs IFull3 IFull.
+Require QFullDefs QFull IFullDefs IFull3 IFull EolFinalFullDefs EolFinalFullHbInk.
 Open Scope Z_scope.
 
 (* Continuation of PropsFull.v for statements whose proofs themselves use PropsFull's theorems (so they cannot live there). *)
@@ -18,6 +18,11 @@ Proof. exact IFull3.parseFull_item. Qed.
 Theorem C09_item_render : IFullDefs.renderDoc_item_statement.
 Proof. exact IFull.renderDoc_item. Qed.
 
+(* C14, final-newline clause through the inline pass *)
+Theorem C14_final_newline_full : EolFinalFullDefs.parseFull_final_newline_statement.
+Proof. exact EolFinalFullHbInk.parseFull_final_newline_statement_holds. Qed.
+
+Print Assumptions C14_final_newline_full.
 Print Assumptions C09_item_parse.
 Print Assumptions C09_item_render.
 Print Assumptions C09_quote_parse.
